@@ -242,6 +242,9 @@ func ordinary(v any) bool {
 func c06Call(c *core.Ctx, root *spec.Node, data any, what string, nontrivial bool) {
 	root.Number()
 	b := spec.Build(root, nil)
+	if what == "injected" && c.R.Intn(3) == 0 {
+		warmAlt(c.R, b) // the same schema object with two valid destination types
+	}
 	o := run.Parse(b, data, nil)
 	c.Eval(1)
 	if o.Panicked {
